@@ -51,9 +51,10 @@ def build(params):
             e.graphs["g.gfa"] = lambda low: g
             e.files["in.gaf"] = stubs.MFile("text", F.build_lines([">s1"], [(500, 1, 2)]), [c0, c1])
             res = {}
-            for outind, bgz in ((None, False), ("custom.idx", False), (None, True), ("custom.idx", True)):
+            for k, (outind, bgz) in enumerate(((None, False), ("custom.idx", False), (None, True), ("custom.idx", True))):
                 e.pickles.clear()
-                e.writer_cookies["o.gaf"] = [w0, w1]
+                # every call sees other offsets: nothing may survive from an earlier run_sort call in the same process
+                e.writer_cookies["o.gaf"] = [w0 + 10 * k, w1 + 10 * k]
                 S.run_sort("g.gfa", "in.gaf", outgaf="o.gaf", outind=outind, bgzip=bgz)
                 want = outind or "o.gaf.gsi"
                 if list(e.pickles.keys()) != [want]:
@@ -61,8 +62,8 @@ def build(params):
                 if (e.files["o.gaf"].kind == "bgzf") != bgz:
                     return "bgzip=%s but the output was %s" % (bgz, e.files["o.gaf"].kind)
                 d = e.pickles[want]
-                if set(d.keys()) != {"chr1"} or not (d["chr1"][0] == w0 and d["chr1"][1] == w0):
-                    return "index content wrong"
+                if set(d.keys()) != {"chr1"} or not (d["chr1"][0] == w0 + 10 * k and d["chr1"][1] == w0 + 10 * k):
+                    return "call %d of run_sort in this process: index %r does not describe this run's output" % (k + 1, d)
             e.pickles.clear()
             S.run_sort("g.gfa", "in.gaf", outgaf=None, outind=None, bgzip=False)
             if e.pickles:
@@ -102,6 +103,12 @@ def replay(params, model, wd):
         if v:
             return {"reproduced": True, "key": "C10:index:" + v[0], "what": v[1]}
         import os
+        # several run_sort calls in one process: each index must describe its own output
+        lines1, out1, offs1, idx1, err1 = F.real_sort(wd, [">t1", ">t1"], {"t1": (b1, 0)}, [(500, 1, 2), (500, 3, 4)])
+        lines2, out2, offs2, idx2, err2 = F.real_sort(wd, [">s1"], tags, [(500, 1, 2)])
+        v2 = concrete_index_violation(out2, offs2, idx2) if not err2 else ("exception", err2)
+        if v2:
+            return {"reproduced": True, "key": "C10:index:second-call-in-process", "what": "second run_sort call in one process: %s" % (v2[1],)}
         for bgz in (False, True):
             lines, outl, offs, idx, err = F.real_sort(wd, [">s1"], tags, [(500, 1, 2)], outind=os.path.join(wd, "custom%d.idx" % bgz), gz_out=bgz)
             if err or idx is None:
